@@ -103,6 +103,13 @@ example : PluralParse.parse "n || n && n == n < n + n * !n".toList =
       (.binop .name .add (.binop .name .mult (.unaryop .not .name))))))) := by rfl
 example : PluralParse.parse "n ! = 1".toList = .syntaxError := by rfl
 
+/-- **Recorded finding (int() digit limit).**  A numeral of more than 4300 digits belongs to the grammar, yet the
+    parser does not accept it: CPython's `int()` raises `ValueError`, which is neither acceptance nor the parser's own
+    syntax error.  The model carries this outcome explicitly; the witness is replayed on the real code by the check
+    (known_findings.json, key `C04:int-digit-limit`). -/
+theorem accepts_every_grammar_string_refuted :
+    PluralParse.parse (List.replicate 4301 '1') = .valueError := by decide +kernel
+
 /-! Non-vacuity: laziness and failure, concretely. -/
 example : evalAt 32 0 (.boolop .and .name (.binop (.num 1) .div .name)) = .ok 0 := by rfl   -- 0 && 1/0
 example : evalAt 32 0 (.binop (.num 1) .div .name) = .error .ZeroDivision := by rfl
